@@ -99,6 +99,9 @@ func (h *Handler) SyncGenesisHeader(native *native.NativeService) (err error) {
 		return fmt.Errorf("invalid PrevValidators")
 	}
 	//the block height of PrevValidators should be smaller than genesis header
+	if genesis.Header.Number == nil || genesis.PrevValidators[0].Height == nil {
+		return fmt.Errorf("invalid genesis: header number or height of the previous validators is missing")
+	}
 	if genesis.Header.Number.Cmp(genesis.PrevValidators[0].Height) <= 0 {
 		return fmt.Errorf("invalid height orders")
 	}
